@@ -14,7 +14,8 @@ import (
 // Every failing build - whatever stage reports the error - must leave the directory exactly as it was, and a successful
 // one may only create files below the output locations it was given. The binary is built from /repo's current tree.
 func c17CLI(c *Check, root string) {
-	bin := filepath.Join(verifRoot, ".build", "esbuild-real")
+	exe, _ := filepath.Abs(os.Args[0])
+	bin := filepath.Join(filepath.Dir(exe), "esbuild-real") // built next to the harness by build.sh
 	if _, err := os.Stat(bin); err != nil {
 		fatalf("esbuild binary not built: %s", bin)
 	}
